@@ -12,8 +12,10 @@
 (* is not part of the key.                                                     *)
 (*                                                                             *)
 (* A record as text (for Dedup): [o : owner text, c, t, rd : RDATA text,       *)
-(* ttl : <<hi16, lo16>>].                                                      *)
-EXTENDS Bytes
+(* ttl : <<hi16, lo16>>].  The owner text denotes a name (Names!Parse: \DDD,   *)
+(* \X escapes); "identical up to owner-name case" is decided on the octets of  *)
+(* its labels, lower-cased -- not on the characters of the text.               *)
+EXTENDS Names
 
 \* lower-case the label octets of the uncompressed name that starts at the
 \* length octet w[i] and lies within w[..end]
@@ -47,10 +49,11 @@ Key(r) == << r.t, r.c, LowerLabels(r.ow, 1, Len(r.ow)), CanonRdata(r.rd, r.spans
 IsDup(a, b) == Key(a) = Key(b)
 
 -----------------------------------------------------------------------------
-(* Dedup: group by <<Lower(owner text), class, type, RDATA text exactly>>; the  *)
+(* Dedup: group by <<lower-cased owner labels, class, type, RDATA text exactly>>; the *)
 (* first record of each group survives, in the original order, carrying the     *)
 (* smallest TTL of its group.                                                   *)
-DKey(r) == << Lower(r.o), r.c, r.t, r.rd >>
+OwnerOK(r) == Parse(r.o).st = "ok"
+DKey(r) == << LowerName(Parse(r.o).labels), r.c, r.t, r.rd >>
 TtlLess(a, b) == a[1] < b[1] \/ (a[1] = b[1] /\ a[2] < b[2])
 Group(list, i) == { j \in 1..Len(list) : DKey(list[j]) = DKey(list[i]) }
 IsFirst(list, i) == \A j \in 1..(i - 1) : DKey(list[j]) # DKey(list[i])
